@@ -203,8 +203,13 @@ func GenCancelWorld(ch *Choices, thorough bool) *IntegWorld {
 			}
 			g.Stages = append(g.Stages, s)
 		}
-		if ch.Bool(1, 8, "missing-cond") {
+		if ch.Bool(1, 6, "missing-cond") {
+			// one or two stages whose condition cannot be evaluated: the scheduling loop cancels the
+			// run itself (twice, if it meets both in one pass)
 			g.Stages[ch.Choose(len(g.Stages), "missing-which")].Cond = "missing"
+			if ch.Bool(1, 2, "second-missing-cond") {
+				g.Stages[ch.Choose(len(g.Stages), "missing-which-2")].Cond = "missing"
+			}
 		}
 		w.Graph = g
 		w.Drivers = []DriverSpec{{Kind: "pipeline", Target: "root"}}
@@ -249,6 +254,7 @@ func runFaultJob(c *Ctl, job *Job, idx int, res *RunResult) {
 		prof.WFault = 4
 		prof.UseRunEnter = true
 		prof.UseStageStart = true
+		prof.WMidpass = 8
 		prof.LogYield = true
 		if world%3 == 0 {
 			prof.CancelVia = "scheduler"
